@@ -38,6 +38,10 @@ VMSkip(s) == [s EXCEPT !.st = IF s.st = "ok" THEN "skip" ELSE s.st]
 FuncBody(cc, name) == cc.funcs[CHOOSE i \in 1..Len(cc.funcs) : cc.funcs[i][1] = name]
 HasFunc(cc, name) == \E i \in 1..Len(cc.funcs) : cc.funcs[i][1] = name
 
+\* pairs taken from the last to the first, each stored under its key (a later store replaces an earlier one)
+RECURSIVE FirstWins(_, _, _)
+FirstWins(ps, i, acc) == IF i = 0 THEN acc ELSE FirstWins(ps, i - 1, HashPut(acc, ps[i][1], ps[i][2]))
+
 RECURSIVE Step(_, _, _, _, _, _, _), RunBody(_, _, _, _)
 
 \* run body `code` of program cc from offset ip with operand stack stk and loop bases in state s
@@ -95,6 +99,16 @@ Step(cc, code, ip, stk, loops, s, ctx) ==
     [] op = OpArray -> IF n < arg THEN Under
                        ELSE IF \E i \in 1..arg : stk[n - arg + i] = V THEN [s |-> VMSkip(s0), out |-> STOP]
                        ELSE Go(Append(Cut(stk, arg), A(SubSeq(stk, n - arg + 1, n))), s0)
+    [] op = OpHash ->
+         \* arg operands: key, value, key, value ... in the order they were emitted; the machine takes them off
+         \* from the top and stores each under its key, so of two pairs with one key the one emitted FIRST stays
+         IF n < arg THEN Under
+         ELSE LET np == arg \div 2
+                  key(i) == stk[n - arg + 2 * i - 1]
+                  val(i) == stk[n - arg + 2 * i] IN
+              IF \E i \in 1..np : key(i) = V \/ val(i) = V THEN [s |-> VMSkip(s0), out |-> STOP]
+              ELSE IF \E i \in 1..np : ~Hashable(key(i)) THEN [s |-> VMFail(s0), out |-> STOP]
+              ELSE Go(Append(Cut(stk, arg), H(FirstWins([i \in 1..np |-> <<key(i), val(i)>>], np, <<>>))), s0)
     [] op = OpJump -> Step(cc, code, arg, stk, loops, s0, ctx)
     [] op = OpJumpIfFalse ->
          IF n < 1 THEN Under
@@ -168,6 +182,25 @@ RunCompiled(cc, g, obj, host, fuel) ==
       calls |-> s.calls, g |-> s.g, st |-> s.st,
       ips |-> s.ips]                    \* <<offset, opcode>> of every instruction executed, in order
 
+\* Hashes are compared as what they are - finite maps - not as the pair lists which represent them: the
+\* pairs are put in the order of the printed keys (where two keys print alike the order is unspecified, and
+\* nothing is demanded of a value which holds such a hash).
+RECURSIVE Canon(_), CanonSeq(_, _), Unordered(_)
+Unordered(v) == CASE IsHash(v) -> ~HashOrderDefined(v[2]) \/ \E i \in 1..Len(v[2]) : Unordered(v[2][i][2])
+                  [] IsArr(v) -> \E i \in 1..Len(v[2]) : Unordered(v[2][i])
+                  [] OTHER -> FALSE
+Canon(v) == CASE IsHash(v) -> LET ks == HashSorted(v[2]) IN H([i \in 1..Len(ks) |-> <<ks[i], Canon(HashGet(v[2], ks[i]))>>])
+              [] IsArr(v) -> A(CanonSeq(v[2], 1))
+              [] OTHER -> v
+CanonSeq(vs, i) == IF i > Len(vs) THEN <<>> ELSE <<Canon(vs[i])>> \o CanonSeq(vs, i + 1)
+SameValue(v, w) == Unordered(v) \/ Unordered(w) \/ Canon(v) = Canon(w)
+SameVars(g, h) == /\ Len(g) = Len(h)
+                  /\ \A i \in 1..Len(g) : Has(h, g[i][1]) /\ SameValue(g[i][2], Get(h, g[i][1]))
+SameCalls(c, d) == /\ Len(c) = Len(d)
+                   /\ \A i \in 1..Len(c) : c[i][1] = d[i][1] /\ Len(c[i][2]) = Len(d[i][2])
+                                              /\ \A j \in 1..Len(c[i][2]) : SameValue(c[i][2][j], d[i][2][j])
+SameOut(x, y) == IF Tag(x) \in {"ERR", "SKIP", "DIVERGE"} \/ Tag(y) \in {"ERR", "SKIP", "DIVERGE"} THEN x = y ELSE SameValue(x, y)
+
 \* the observable record b agrees with the reference record a: nothing is demanded where either is
 \* unconstrained or where the reference ran out of fuel (b running out of fuel when the reference did
 \* not is a disagreement); the variables left are compared too - after a failed run they are what
@@ -175,7 +208,7 @@ RunCompiled(cc, g, obj, host, fuel) ==
 Agree(a, b) ==
   \/ IsSkip(a.out) \/ IsSkip(b.out)
   \/ a.out[1] = "DIVERGE"
-  \/ /\ a.out = b.out
-     /\ a.calls = b.calls
-     /\ a.g = b.g
+  \/ /\ SameOut(a.out, b.out)
+     /\ SameCalls(a.calls, b.calls)
+     /\ SameVars(a.g, b.g)
 =============================================================================
